@@ -123,8 +123,9 @@ def run(ctx, rep, tier):
     rep.check(len(emp) == 1 and ast.unparse(emp[0].value) == "j.attach(*self.case_match_actions[true_backref], prepend=True)", "C08.d", CV, "action-only clause: its actions go on the transitions into its finish states",
               "action-only clause attachment changed")
     ate = [n for n in ast.walk(cv) if isinstance(n, ast.Assign) and ast.unparse(n.targets[0]) == "all_transitions_empty"]
-    rep.check(len(ate) == 1 and "decider_dfa.transitions_pointing_to(x) for x in corresponding_finish_states[i]" in ast.unparse(ate[0].value), "C08.d", CV,
-              "those transitions = everything pointing into the clause's finish states", "action-only clause transition set changed")
+    rep.check(len(ate) == 1 and ("decider_dfa.transitions_pointing_to(x) for x in corresponding_finish_states[i]" in ast.unparse(ate[0].value) or
+                                 "decider_dfa.transitions_pointing_to(x) for x in left_for_good" in ast.unparse(ate[0].value)), "C08.d", CV,
+              "those transitions = everything pointing into the clause's finish states (those the decider is left for good in: C08.f)", "action-only clause transition set changed")
 
 
 def _shared(ctx, rep, tier):
@@ -150,37 +151,25 @@ def run(ctx, rep, tier):
 
 # ---------------------------------------------------------------------------------------------------------------- C08.f
 def _bodyless_clauses(ctx, rep, tier):
-    """C08.f: the actions of a clause without a body are put on the transitions *entering* its finish states (the only place there is). That
-    runs exactly the selected clause only if (1) the decider's start state is not such a finish state (a zero-byte match has no entering
-    transition) and (2) from such a finish state no finish state of another clause can still be reached (greedy cases keep consuming).
-    Both are refused before any action is attached."""
+    """C08.f (F-36/F-37, redone as F-115): the actions of a clause without a body can sit on the transitions ENTERING a finish state of its pattern only where entering
+    means 'this clause is taken, now': the decider is left for good there (every transition out of the state is an error path) and something was consumed to get there (it is
+    not the decider's starting state). Everywhere else - a longer input may still select another clause or fall out to else, a repeating pattern comes round again, the
+    pattern matched nothing - they wait on an action step behind the state, taken when the decider is left. (The earlier design refused two of these shapes and attached on
+    entry otherwise; that missed cycles and the fall-out to else: `case { /(aa)+/ -> { h(); } } "d";` called h after every second a.)"""
     model = ctx.model
-    rep.rule("C08.f", "actions of a body-less clause are attached on entry to its finish states only after refusing (1) a pattern that matches the empty string and (2) finish states "
-                      "from which a finish state of another clause is reachable over non-error transitions")
-    fn = model.func(CV)
-    attach = model.find(CV, "j.attach(*self.case_match_actions[true_backref], prepend=True)")
-    if not attach:
-        raise AnalysisError("C08.f: attach of a body-less clause's actions not found in CaseNode.convert")
-    att_line = min(n.lineno for n, _ in attach)
-    g1 = [n for n in walk_no_nested(fn) if isinstance(n, ast.If) and re.fullmatch(r"decider_dfa\.starting_state in corresponding_finish_states\[(\w+)\]", ast.unparse(n.test)) and isinstance(n.body[-1], ast.Raise)]
-    rep.check(len(g1) == 1 and g1[0].lineno < att_line and model.is_subclass(raised_class(g1[0].body[-1]) or "", "NMFUError"), "C08.f", CV, "a body-less clause whose pattern matches the empty string is refused",
-              "`case { /[ab]*/ -> { r = 1; } ... }`: the zero-byte match has no entering transition, so the clause's actions are silently dropped (neither it nor else runs)")
-    others = model.find(CV, "finish_states_of_others = set().union(*(corresponding_finish_states[j] for j in mergeable_ds if j is not i))")
-    g2 = [n for n in walk_no_nested(fn) if isinstance(n, ast.If) and re.fullmatch(r"(\w+)\.target in finish_states_of_others", ast.unparse(n.test)) and isinstance(n.body[-1], ast.Raise)]
-    ok = bool(others) and len(g2) == 1 and g2[0].lineno < att_line
-    if ok:
-        # the search is a closure: a worklist seeded with the clause's own finish states, following every transition that is not an error path
-        w = model.parents.get(model.parents.get(g2[0]))      # for trans in ...: inside while to_visit:
-        lp = model.parents.get(g2[0])
-        ok = isinstance(lp, ast.For) and isinstance(w, ast.While) and "all_transitions()" in ast.unparse(lp.iter) and \
-            model.has(CV, "to_visit = list(corresponding_finish_states[i])") and model.has(CV, "visited.add(trans.target)\nto_visit.append(trans.target)", root=lp) and \
-            any(isinstance(s, ast.If) and isinstance(s.body[-1], ast.Continue) and "error_handling" in ast.unparse(s.test) for s in lp.body)
-    rep.check(ok, "C08.f", CV, "a body-less clause whose finish states can still lead to another clause's finish state is refused (closure over non-error transitions)",
-              "`greedy case { prio 1 \"de\" -> { n = [n+1]; } /[a-z]+/ -> { r = 3; } }`: entering a finish state does not mean the clause is the one selected - the bodies of clauses that are "
-              "not selected run as their prefixes go by")
-    skip = [n for n in walk_no_nested(fn) if isinstance(n, ast.If) and "not self.case_match_actions[empty_backreference[" in ast.unparse(n.test) and isinstance(n.body[-1], ast.Continue)]
-    rep.check(len(skip) == 1 and re.fullmatch(r"original_backreference\[(\w+)\] is not None or empty_backreference\[\1\] is None or \(?not self\.case_match_actions\[empty_backreference\[\1\]\]\)?", ast.unparse(skip[0].test)) is not None,
-              "C08.f", CV, "the refusals apply to every body-less clause that has actions (others are skipped)", "the scope of the body-less clause checks changed")
+    rep.rule("C08.f", "actions of a body-less clause go on the transitions entering a finish state only where the decider is left for good there; all other finish states get an action step")
+    ok_part = model.has(CV, "left_for_good = [x for x in corresponding_finish_states[i] if x is not decider_dfa.starting_state and all((t.error_handling for t in x.transitions))]\n"
+                            "still_matching = [x for x in corresponding_finish_states[i] if x not in left_for_good]")
+    rep.check(ok_part, "C08.f", CV, "finish states are split: left for good (not the start, only error paths out) / still matching",
+              "the actions of a body-less clause are attached on entry to every finish state of its pattern: where the decider goes on matching from there the clause is not (yet) the one taken - "
+              "`case { /(aa)+/ -> { h(); } } \"d\";` calls h after every second a; with an else clause h runs although the input falls out to else; "
+              "`greedy case { prio 1 \"de\" -> { n = [n+1]; } /[a-z]+/ -> { r = 3; } }` runs clauses that are not selected")
+    ok_att = model.has(CV, "all_transitions_empty = set().union(*(decider_dfa.transitions_pointing_to(x) for x in left_for_good))") and \
+        model.has(CV, "for j in all_transitions_empty:\n    j.attach(*self.case_match_actions[true_backref], prepend=True)")
+    rep.check(ok_att, "C08.f", CV, "entry attachment only for the states left for good", "the set of transitions that receive a body-less clause's actions on entry changed")
+    ok_step = model.has(CV, "if still_matching and self.case_match_actions[true_backref]:\n    decider_dfa.append_action_step(self.case_match_actions[true_backref], still_matching)")
+    rep.check(ok_step, "C08.f", CV, "the other finish states get the clause's actions on an action step (taken when the decider is left)",
+              "finish states from which the decider goes on matching (or the starting state: a pattern that matched nothing) do not get the clause's actions at all")
 
 
 _run_f = run
@@ -191,3 +180,10 @@ def run(ctx, rep, tier):
     _bodyless_clauses(ctx, rep, tier)
     from .shared import delegate
     delegate(ctx, rep, tier, "C07", ("C07.a",), "C08.g", "clause patterns built from character classes: the class algebra (split / union / invert) the merged decider is built from is exact")
+    # C08.h (F-114) - stated here directly (C01 delegates into this module: a delegate back would be circular)
+    rep.rule("C08.h", "the leading actions of a clause whose body can match nothing wait on an action step where the decider goes on matching from the pattern's finish state")
+    okh = ctx.model.has("DFA.append_after", "entered_otherwise = [x for x in sub_states if x is self.starting_state or x in jumped_to or any((not t.error_handling for t in x.transitions))]") and \
+        ctx.model.has("DFA.append_after", "if entered_otherwise:\n    sub_states = [x for x in sub_states if x not in entered_otherwise] + [self.append_action_step(chain_actions, entered_otherwise)]")
+    rep.check(okh, "C08.h", "DFA.append_after", "join states that go on matching are given the action step, not the entering transitions",
+              "with a body that can match nothing, a clause's leading actions are put on the transitions entering the pattern's finish state although a longer pattern continues from there: "
+              "`greedy case { \"a\" -> { x = 1; optional { \"c\"; } } \"ab\" -> { y = 2; } }` sets x on \"abd\" although the second clause is the one selected")
